@@ -36,6 +36,12 @@ func c05Start(kind string) *rtp.Header {
 		h.Extension, h.ExtensionProfile = true, 0x1000
 	case "legacy":
 		h.Extension, h.ExtensionProfile = true, 0x1234
+	case "um_onebyte_plain", "um_twobyte_plain":
+		// a receiver that decoded a packet with an extension block and then one without (X clear)
+		h = c05Start(kind[:len(kind)-6])
+		if _, err := h.Unmarshal([]byte{0x80, 96, 0, 2, 0, 0, 0, 2, 0, 0, 0, 2, 9, 9}); err != nil {
+			fatal("C05 start %s: %v", kind, err)
+		}
 	case "um_onebyte", "um_twobyte", "um_legacy", "um_dup":
 		var raw []byte
 		base := []byte{0x90, 96, 0, 1, 0, 0, 0, 1, 0, 0, 0, 2}
